@@ -1,5 +1,6 @@
 import XmppModel.Model.Mux
 import XmppModel.Lemmas.Mux
+import XmppModel.Generated.C14
 /-!
 # C14 — the multiplexer always picks the most specific registered handler
 
@@ -286,5 +287,89 @@ theorem C14_history_later_registration (ns : String) (tbl : Table) (k : Kind) (h
   | pres => have h2 := hr.2; simp only at h2; simp [runHist, histRes, histStep, hr.1, h2]
 
 example : register [] ⟨.iq, "get", ⟨"urn:a", "x"⟩⟩ false = some [⟨.iq, "get", ⟨"urn:a", "x"⟩⟩] := by decide
+
+/-! ### the replay buffer call by call, over either end-of-input framing -/
+
+/-- **`bufReader.Token`**: whichever way the reader underneath reports the end of its input
+(`io.EOF` on a separate call, or together with the last token), a reader whose offset lies in
+its buffer hands out, over any number `c` of calls, exactly the next tokens of `buf ++ rest`,
+and loses none of them: afterwards `buf' ++ rest' = buf ++ rest` and the old buffer is a prefix
+of the new one -/
+theorem C14_bufreader_replay (f : Framing) (c : Nat) (buf rest : List Tok) (off : Nat)
+    (h : off ≤ buf.length) :
+    (BufR.readN f c ⟨buf, off, rest⟩).1 = ((buf ++ rest).drop off).take c ∧
+    (BufR.readN f c ⟨buf, off, rest⟩).2.buf ++ (BufR.readN f c ⟨buf, off, rest⟩).2.rest = buf ++ rest ∧
+    buf <+: (BufR.readN f c ⟨buf, off, rest⟩).2.buf := by
+  have hs := BufR.readN_spec f c buf rest off h
+  refine ⟨hs.1, ?_, ?_⟩
+  · rw [hs.2.1, hs.2.2, List.append_assoc, List.take_append_drop]
+  · rw [hs.2.1]; exact List.prefix_append _ _
+
+/-- the last token of the stanza arriving together with `io.EOF` is buffered like any other:
+the next reader replays the complete stanza -/
+example : (BufR.readN .eof 9 ⟨[.start ⟨"jabber:client", "message"⟩ []], 0, [.stop ⟨"jabber:client", "message"⟩]⟩).2.buf
+    = [.start ⟨"jabber:client", "message"⟩ [], .stop ⟨"jabber:client", "message"⟩] := by decide
+
+/-- a fresh reader over the handed-back buffer (offset 0) read `c` times sees the first `c`
+tokens of the stanza: the call-by-call reader is the abstract `handlerRead`, for both framings -/
+theorem C14_bufreader_fresh (f : Framing) (b : BR) (c : Nat) :
+    b.stepRead f c = ((b.buf ++ b.rest).take c, b.advance c) := BR.stepRead_eq f b c
+
+/-- **framing independence**: the whole per-child dispatch, every handler read computed call
+by call over a reader of framing `f`, is the dispatch of `forChildren` — so every statement
+above (full stanza from its start element, most specific handler per child, empty stanza to
+the type wildcard) holds for readers that deliver the final end element together with `io.EOF` -/
+theorem C14_framing_independent (f : Framing) (tbl : Table) (k : Kind) (typ : String)
+    (stanza : List Tok) (cons : List Nat) :
+    forChildrenF f tbl k typ stanza cons = forChildren tbl k typ stanza cons :=
+  forChildrenF_eq f tbl k typ stanza cons
+
+/-- the empty stanza over a reader that ends with `(end element, io.EOF)` reaches the type wildcard -/
+example : (forChildrenF .eof [⟨.msg, "chat", ⟨"", ""⟩⟩] .msg "chat"
+    [.start ⟨"jabber:client", "message"⟩ [], .stop ⟨"jabber:client", "message"⟩] [2]).length = 1 := by decide
+
+/-! ### the payload handed to an IQ handler -/
+
+/-- **IQ payload**: the handler registered for the most specific pattern matching the IQ's first
+child element is given that element's start tag and reads exactly what follows it inside the
+IQ — never the IQ's own end tag — and an IQ whose payload no pattern of its type matches gets
+the defaults of `C14_iq_default` -/
+theorem C14_iq_payload (tbl : Table) (typ : String) (s e : Tok) (n : Name) (as : List Attr)
+    (rest : List Tok) (c : Nat) :
+    iqRoute tbl typ (s :: .start n as :: (rest ++ [e])) c =
+      match iqDispatch tbl typ n with
+      | .handler p => .handler p n (rest.take c)
+      | .fallback => .fallback
+      | .nothing => .nothing := by
+  have hd : (Tok.start n as :: (rest ++ [e])).dropLast = Tok.start n as :: rest := by
+    rw [← List.cons_append, List.dropLast_concat]
+  simp only [iqRoute, hd, List.dropWhile, isSpaceTok]
+  cases iqDispatch tbl typ n <;> rfl
+
+/-- whitespace before the payload is skipped, siblings after it stay readable -/
+example : iqRoute [⟨.iq, "get", ⟨"urn:a", ""⟩⟩] "get"
+    [.start ⟨"jabber:client", "iq"⟩ [], .chars " \n", .start ⟨"urn:a", "x"⟩ [], .stop ⟨"urn:a", "x"⟩,
+     .chars "tail", .stop ⟨"jabber:client", "iq"⟩] 9
+    = .handler ⟨.iq, "get", ⟨"urn:a", ""⟩⟩ ⟨"urn:a", "x"⟩ [.stop ⟨"urn:a", "x"⟩, .chars "tail"] := by
+  simp [iqRoute, iqDispatch, lookup, shapes, firstHit, isSpaceTok, List.dropLast, List.dropWhile]
+
+/-! ### tables probed on the real code -/
+
+set_option maxRecDepth 200000 in
+/-- **types are compared verbatim** (probe fact): for every kind and every ordered pair of
+types of the probe universe — declared constants, the empty type, an unknown type, a case
+variant — the real options and exported lookups find a pattern of type `T1` by a lookup of type
+`T2`, and refuse the same name for `T2` after `T1`, exactly when the model does, i.e. exactly
+when `T1 = T2` -/
+theorem C14_probe_types : Generated.C14.typeTable = some typeTableModel := by decide
+
+set_option maxRecDepth 200000 in
+theorem C14_probe_types_identity :
+    ∀ r ∈ typeTableModel, r.wild = (r.t1 == r.t2) ∧ r.exact = (r.t1 == r.t2) ∧ r.second = !(r.t1 == r.t2) := by decide
+
+set_option maxRecDepth 200000 in
+/-- **cascade order** (probe fact): for every kind and every subset of the four shapes of a
+name the real exported lookup returns the handler of the pattern the model's cascade returns -/
+theorem C14_probe_cascade : Generated.C14.cascadeTable = some cascadeTableModel := by decide
 
 end XmppModel.Props.C14
